@@ -65,7 +65,29 @@ impl Args {
     pub fn get(&self, k: &str) -> Option<&str> {
         self.extra.get(k).map(|s| s.as_str())
     }
+
+    /// `--only-case <seed>`: replay exactly the case derived from that seed.
+    pub fn only_case(&self) -> Option<u64> {
+        self.get("only-case").and_then(|s| s.parse().ok())
+    }
+
+    /// Seed of the next sampled case: the shard's PRNG stream, or - when replaying - the one
+    /// requested seed, once.
+    pub fn next_case(&self, r: &mut crate::rng::Rng) -> Option<u64> {
+        match self.only_case() {
+            None => Some(r.next_u64()),
+            Some(s) => {
+                if ONLY_CASE_USED.swap(true, std::sync::atomic::Ordering::SeqCst) {
+                    None
+                } else {
+                    Some(s)
+                }
+            }
+        }
+    }
 }
+
+static ONLY_CASE_USED: std::sync::atomic::AtomicBool = std::sync::atomic::AtomicBool::new(false);
 
 #[derive(Clone, Debug)]
 pub struct Violation {
